@@ -51,6 +51,7 @@ func runC06(c *Ctx) {
 	phase("sm-depth", c06SmDepth)
 	phase("namespace", c06NamespacePredicate)
 	phase("enc-scripts", c06EncAll)
+	phase("validators", func(c *Ctx) { c06Validators(c, c06Jobs) })
 	phase("enc-depth", c06EncDepth)
 }
 
@@ -1597,6 +1598,71 @@ func c06EncAll(c *Ctx) {
 	jobs = append(jobs, c06NameEquivScripts(c, r)...)
 	c.Note("enc: %d scripts in total", len(jobs))
 	c06Par(c, len(jobs), 1500, func(or *Oracle, lo, hi, w int) { c06Check(c, or, jobs[lo:hi]) })
+	c06Jobs = jobs
+}
+
+var c06Jobs []c06Job
+
+// c06Validators: every distinct (options, raw value) of the scripts, as ONE top-level value on a fresh encoder:
+// the real WriteValue verdict, the verdict of the encoder model's validator (reformatValue) and the verdict of
+// slice C01's decoder-side validator (Validate.isValid, proved sound for the grammar) must coincide
+// (Props/C06 `reformat_valid_full` is the unproved Lean statement this validates).
+func c06Validators(c *Ctx, jobs []c06Job) {
+	type item struct {
+		o *c06Opts
+		v []byte
+	}
+	seen := map[string]bool{}
+	var items []item
+	for _, j := range jobs {
+		for _, call := range j.script {
+			if call.tok || call.reset || len(call.data) > 4096 {
+				continue
+			}
+			key := j.o.wire()[:2] + string(call.data) // only AllowDuplicateNames / AllowInvalidUTF8 matter
+			if !seen[key] {
+				seen[key] = true
+				items = append(items, item{j.o, call.data})
+			}
+		}
+	}
+	c.Note("validators: %d distinct (grammar options, raw value) pairs", len(items))
+	c06Par(c, len(items), 4000, func(or *Oracle, lo, hi, w int) {
+		var lines []string
+		impl := make([]bool, 0, hi-lo)
+		for _, it := range items[lo:hi] {
+			var err error
+			if p := guard(func() { err = jsontext.NewEncoder(io.Discard, it.o.opts...).WriteValue(jsontext.Value(it.v)) }); p != nil {
+				c.Panic("Encoder.WriteValue", it.v, p, map[string]any{"opts": it.o.name})
+			}
+			impl = append(impl, err == nil)
+			lines = append(lines, "enc valid "+it.o.wire()+" "+hx(it.v))
+			// independent reference as well
+			if _, ok := c06ParseRaw(it.v, it.o, 10000); ok != (err == nil) {
+				c.Violate("accept-mismatch", "Encoder.WriteValue", it.v, map[string]any{"opts": it.o.name, "value": c06Short(it.v), "impl_accepts": err == nil, "reference_accepts": ok})
+			}
+			c.Case("valid:"+it.o.wire()[:2]+string(it.v), true)
+		}
+		c.HitN("enc/validator-cross-checks", int64(hi-lo))
+		if or == nil {
+			return
+		}
+		ans := or.Ask(lines)
+		for i, a := range ans {
+			it := items[lo+i]
+			want := "0 0"
+			if impl[i] {
+				want = "1 1"
+			}
+			if a != want {
+				kind := "corr-enc-valid"
+				if len(a) == 3 && a[0] != a[2] {
+					kind = "corr-validators-disagree" // the two Lean models disagree with each other
+				}
+				c.Violate(kind, "Encoder.WriteValue", it.v, map[string]any{"opts": it.o.name, "value": c06Short(it.v), "impl_accepts": impl[i], "models(reformatValue,Validate.isValid)": a})
+			}
+		}
+	})
 }
 
 // c06EncDepth: the depth limit through the public API (10000 open containers).
